@@ -137,7 +137,8 @@ class Ctx:
         with open(cfg_path, "w") as f:
             f.write(cfg_text)
         meta = os.path.join(self.work, "meta-" + run_id)
-        jopts = ["-XX:+UseParallelGC", "-Xss1g", "-Xmx" + xmx, "-DTLA-Library=" + os.path.join(SPEC, "lib")]
+        jopts = ["-XX:+UseParallelGC", "-Xss1g", "-Xmx" + xmx, "-DTLA-Library=" + os.path.join(SPEC, "lib"),
+                 "-Djava.io.tmpdir=" + self.work]      # TLC unpacks its standard modules there; removed with the work directory
         if dfs:
             jopts.append("-Dtlc2.tool.queue.IStateQueue=StateDeque")
         cmd = ["java"] + jopts + ["-cp", TLA_CP, "tlc2.TLC", "-workers", str(workers), "-metadir", meta,
